@@ -332,7 +332,12 @@ VAR_TABLES = {
     'cplx': dict(zip(NAMES, [_cx(1, 2), _cx('-0.5', 1), _cx(3), _cx(2, -1), _cx(0, '1.5'), _cx(-2, '-0.5'), _cx('0.25', 3),
                              _cx(1, 1), _cx(2), _cx(0, -2)])),
 }
-VAR_IDS = {'int': 0, 'dec': 1, 'cplx': 2}
+# bindings that are Python ints (the other tables bind floats / complex): small, large, negative, all exactly
+# representable as doubles so that the documented value does not depend on how the conversion rounds
+VAR_TABLES['pyint'] = dict(zip(NAMES, [_cx(2), _cx(100), _cx(299792458), _cx(10**10), _cx(-10**10), _cx(3), _cx(-7),
+                                       _cx(64), _cx(2**32), _cx(10**19)]))
+VAR_IDS = {'int': 0, 'dec': 1, 'cplx': 2, 'pyint': 3}
+VAR_KEYS = ('int', 'dec', 'cplx', 'pyint')
 CONST_NAMES = ['pi', 'e', 'i', 'j']
 SUFFIX_IDS = {'default': 0, 'metric': 1}
 
@@ -382,7 +387,10 @@ def scope(var_key, suf_key):
     mf = I['mf']
     variables = dict(mf.DEFAULT_VARIABLES)
     for n, (re_, im_) in VAR_TABLES[var_key].items():
-        variables[n] = complex(float(re_), float(im_)) if im_ != 0 else float(re_)
+        if var_key == 'pyint':
+            variables[n] = int(re_)
+        else:
+            variables[n] = complex(float(re_), float(im_)) if im_ != 0 else float(re_)
     suffixes = dict(mf.DEFAULT_SUFFIXES)
     if suf_key == 'metric':
         suffixes.update(mf.METRIC_SUFFIXES)
@@ -1254,7 +1262,7 @@ def tables_text():
     I = impl()
     mf = I['mf']
     vt = []
-    for key in ('int', 'dec', 'cplx'):
+    for key in VAR_KEYS:
         variables, _ = scope(key, 'default')
         rows = []
         for n in sorted(variables):
@@ -1438,12 +1446,12 @@ def sizes(ctx):
     tier, esc = ctx['tier'], ctx['escalate']
     if tier == 'thorough':
         return dict(leads12=('', '-', '+'), leads3=('', '-', '+'), seq4_basic=False, seq4_random=20736, leaf_sets=6,
-                    derivations=4000, renderings=6, invalid=3000, mutants=8000, graders=300)
+                    derivations=4000, renderings=6, invalid=3000, mutants=8000, graders=300, int_derivations=3000)
     if esc:
         return dict(leads12=('', '-', '+'), leads3=('', '-'), seq4_basic=True, seq4_random=1500, leaf_sets=1,
-                    derivations=500, renderings=6, invalid=700, mutants=2000, graders=100)
+                    derivations=500, renderings=6, invalid=700, mutants=2000, graders=100, int_derivations=500)
     return dict(leads12=('', '-', '+'), leads3=('',), seq4_basic=True, seq4_random=600, leaf_sets=1,
-                derivations=300, renderings=5, invalid=400, mutants=1000, graders=60)
+                derivations=300, renderings=5, invalid=400, mutants=1000, graders=60, int_derivations=250)
 
 
 class Collector(object):
@@ -1565,10 +1573,91 @@ def run_literals(ctx, res, col, rng):
     col.count('literal_strings', len(forms) * (1 + len(SUFFIX_VALUES)) + 3 * len(NAMES + CONST_NAMES))
 
 
+INT_LEAF_SETS = [['x', 'y', 'T_{1}^{2}', 'X', 'b2'], ['X', 'X', 'X', 'x', 'T_{1}^{2}'], ['z_1', 'a_{1}', 'k', 'k', "x'"],
+                 ['k', 'k', 'x', 'b2', 'phi_{-1}'], ["x'", 'T_{1}^{2}', 'x', 'z_1', 'y']]
+
+
+def gen_names_expr(rng, depth):
+    """derivations built from names only (no number literal anywhere)"""
+    if depth <= 0 or rng.random() < 0.15:
+        return ('var', rng.choice(NAMES))
+    r = rng.random()
+    sub = lambda: gen_names_expr(rng, depth - 1)       # noqa
+    if r < 0.30:
+        return ('mul', sub(), sub())
+    if r < 0.50:
+        return ('pow', sub(), ('var', rng.choice(['x', 'T_{1}^{2}', 'x', 'b2', 'y', "x'"])))
+    if r < 0.65:
+        return ('add', sub(), sub())
+    if r < 0.78:
+        return ('sub', sub(), sub())
+    if r < 0.86:
+        return ('neg', sub())
+    if r < 0.92:
+        return ('div', sub(), sub())
+    if r < 0.96:
+        return ('par', [sub(), sub()])
+    return ('paren', sub())
+
+
+def run_int_bindings(ctx, res, col, rng, sz):
+    """variables bound to Python ints, expressions built from names only: integer-typed intermediates of every magnitude
+    (products, powers, towers up to the overflow threshold); also through FormulaGrader user_constants"""
+    from mitxgraders import FormulaGrader
+    cases = []
+    for lv in INT_LEAF_SETS:
+        for k in (1, 2, 3):
+            for seq in itertools.product(BASIC, repeat=k):
+                cases.append((seq_to_expr('', seq, lv), 'sequence'))
+    for _ in range(sz['int_derivations']):
+        cases.append((gen_names_expr(rng, rng.choice([1, 2, 3, 4])), 'derivation'))
+    consts = dict((n, int(v[0])) for n, v in VAR_TABLES['pyint'].items() if n.isalnum())
+    n_graded = 0
+    for idx, (e, kind) in enumerate(cases):
+        s = ''.join(tokens(e))
+        r = run_impl(s, 'pyint', 'default')
+        exp = expected_of(e, 'pyint')
+        col.add(s, 'pyint', 'default', r, stream='int-bindings', exp=exp)
+        res.oracle_evals += 1
+        col.count('int_expected:' + exp[0])
+        bad = check_value(r, exp)
+        if bad:
+            witness(res, kind, s, 'pyint', 'default', bad + ' (variables bound to Python ints)', expected=plain_expected(exp),
+                    canonical=s)
+        if exp[0] == 'value':
+            res.nontrivial.add(('pyint', s))
+        # the same through a grader whose user_constants are ints
+        if exp[0] == 'value' and idx % 7 == 0 and exp[1].imag == 0 and 1e-6 < abs(exp[1]) < 1e200 and exp[2] < 100 \
+                and all(n in consts for n in names_in(e)):
+            n_graded += 1
+            g = FormulaGrader(answers=repr(exp[1].real), user_constants=consts, tolerance='0.0001%')
+            st, out = core.guarded(g, None, s)
+            res.oracle_evals += 1
+            if not (st == 'ret' and out.get('ok') is True):
+                witness(res, 'int-grader', s, 'pyint', 'default',
+                        'FormulaGrader(answers=%r, user_constants=<ints>) on %r (documented value %r) returned %r' %
+                        (repr(exp[1].real), s, exp[1].real, out), answer=repr(exp[1].real))
+    col.count('int_binding_strings', len(cases))
+    col.count('int_binding_graded', n_graded)
+
+
+def names_in(e):
+    if e[0] == 'var':
+        return [e[1]]
+    out = []
+    for c in e[1:]:
+        if isinstance(c, tuple):
+            out += names_in(c)
+        elif isinstance(c, list):
+            for x in c:
+                out += names_in(x)
+    return out
+
+
 def run_derivations(ctx, res, col, rng, sz):
     styles = ['canon', 'spaces', 'ws', 'emdash', 'parens', 'mixed']
     for i in range(sz['derivations']):
-        var_key = rng.choice(['int', 'dec', 'cplx'])
+        var_key = rng.choice(['int', 'dec', 'cplx', 'int', 'dec', 'cplx', 'pyint'])
         suf_key = rng.choice(['default', 'metric'])
         depth = rng.choice([1, 2, 2, 3, 3, 4, 5, 6])
         e = gen_expr(rng, depth, var_key, suf_key, arrays=(rng.random() < 0.15))
@@ -1710,6 +1799,164 @@ def run_graders(ctx, res, col, rng, sz):
     col.count('grader_expressions', n)
 
 
+# =================================================================================================
+# perturb-then-probe: the value of a formula depends on the string and the SUPPLIED scope only -- not on which graders
+# were configured or called before.  Perturbers use the rare scope-changing options; the probes are then evaluated with
+# the library's default scope and with fresh default graders, and compared with the same probes in a fresh interpreter.
+# =================================================================================================
+PROBES = ['5k', '2m', '1G+1', '3u*2', '4T', '7M', '1n', '2p', '50%', '2%+1', 'pi', 'e', 'i*i', 'j', 'infty', 'x', 'c', 'T', 'k', 'm',
+          'a_{1}', "x'", 'E', 'Pi', 'f(1)', 'F(1)', 'g(1,2)', 'sin(0)', 'SIN(0)', 'tan(0)', 'sqrt(4)', 'exp(0)', 'ln(e)',
+          'log10(100)', 'kronecker(1,1)', 'max(1,2)', 'abs(-2)', 'arctan2(1,1)', 're(i)', 'conj(i)', 'norm([3,4])',
+          'trans([1,2])', 'det([[1,2],[3,4]])', '[1,2]*2', 'cross([1,0,0],[0,1,0])', '2^3^2', '1/0', '1+', '2 3']
+
+
+def _plain(v):
+    I = impl()
+    if isinstance(v, I['MathArray']) or isinstance(v, (list, tuple)):
+        return [_plain(x) for x in list(v)]
+    try:
+        c = complex(v)
+        return [repr(c.real), repr(c.imag)]
+    except (TypeError, ValueError):
+        return repr(v)
+
+
+def _norm(st, r):
+    if st == 'ret':
+        if isinstance(r, dict):
+            return ['result', repr(r.get('ok')), repr(r.get('grade_decimal')), str(r.get('msg'))[:200]]
+        if isinstance(r, tuple):
+            return ['value', _plain(r[0])]
+        return ['value', _plain(r)]
+    if st == 'exc':
+        return ['exc', type(r).__name__, str(r)[:200]]
+    return ['timeout']
+
+
+def _table(d):
+    out = []
+    for k in sorted(d):
+        v = d[k]
+        out.append([k, getattr(v, '__name__', None) or repr(v)] if callable(v) else [k, repr(v)])
+    return out
+
+
+def probe_outcomes(probes=None):
+    """evaluator(p) with the library's own default scope, fresh default graders on p, and the default tables themselves"""
+    import mitxgraders
+    from mitxgraders.helpers.calc import mathfuncs as mf
+    from mitxgraders.helpers.calc.expressions import evaluator
+    from mitxgraders.helpers import math_helpers
+    out = {}
+    for p in (PROBES if probes is None else probes):
+        out['evaluator(%r)' % p] = _norm(*core.guarded(evaluator, p))
+        for name in ('FormulaGrader', 'NumericalGrader', 'MatrixGrader'):
+            cls = getattr(mitxgraders, name)
+            st, g = core.guarded(cls, answers='1')
+            out['%s(answers=\'1\')(None, %r)' % (name, p)] = _norm(*core.guarded(g, None, p)) if st == 'ret' else _norm(st, g)
+    if probes is None:
+        out['DEFAULT_VARIABLES'] = _table(mf.DEFAULT_VARIABLES)
+        out['DEFAULT_FUNCTIONS'] = _table(mf.DEFAULT_FUNCTIONS)
+        out['DEFAULT_SUFFIXES'] = _table(mf.DEFAULT_SUFFIXES)
+        out['METRIC_SUFFIXES'] = _table(mf.METRIC_SUFFIXES)
+        for name in ('FormulaGrader', 'NumericalGrader', 'MatrixGrader', 'SumGrader'):
+            cls = getattr(mitxgraders, name, None)
+            if cls is not None:
+                out[name + '.default_variables'] = _table(cls.default_variables)
+                out[name + '.default_functions'] = _table(cls.default_functions)
+                out[name + '.default_suffixes'] = _table(cls.default_suffixes)
+        out['MathMixin.default_suffixes'] = _table(math_helpers.MathMixin.default_suffixes)
+    return out
+
+
+def fresh_probe_outcomes(probes=None):
+    """the same in a fresh interpreter (nothing configured or called before)"""
+    import json as _json
+    import os as _os
+    import subprocess as _sp
+    import sys as _sys
+    code = ('import sys, json\nfrom harness.props import c03\n'
+            'print("@@" + json.dumps(c03.probe_outcomes(%r)))' % (probes,))
+    env = dict(_os.environ)
+    env['PYTHONPATH'] = core.REPO + _os.pathsep + core.VERIF
+    p = _sp.run([_sys.executable, '-B', '-c', code], cwd=core.VERIF, env=env, stdout=_sp.PIPE, stderr=_sp.PIPE, text=True,
+                timeout=600)
+    for line in p.stdout.splitlines():
+        if line.startswith('@@'):
+            return _json.loads(line[2:])
+    raise RuntimeError('fresh interpreter failed: %s' % p.stderr[-500:])
+
+
+def perturbers():
+    """(grader class name, configuration, inputs): graders using the scope-changing options, called on valid and invalid input"""
+    sq = lambda x: x * x          # noqa
+    return [
+        ('FormulaGrader', dict(answers='2000', metric_suffixes=True), ['2k', '2000', '2m*1M', 'q', '1+']),
+        ('NumericalGrader', dict(answers='0.002', metric_suffixes=True), ['2m', '2e-3', '5%']),
+        ('MatrixGrader', dict(answers='[1,2]', metric_suffixes=True, max_array_dim=1), ['[1,2]', '[1k,2]/1k']),
+        ('FormulaGrader', dict(answers='k*m', variables=['k', 'm'], metric_suffixes=True), ['k*m', 'm*k', '1k']),
+        ('FormulaGrader', dict(answers='c*T', user_constants={'c': 3e8, 'T': 2, 'k': 5}), ['c*T', '6e8', 'c*k']),
+        ('FormulaGrader', dict(answers='c*c*c', user_constants={'c': 299792458, 'x': 2}), ['c*c*c', 'c^3', 'x^c']),
+        ('FormulaGrader', dict(answers='1', user_constants={'pi': None, 'e': None}), ['1', 'pi', 'e']),
+        ('FormulaGrader', dict(answers='f(2)', user_functions={'f': sq, 'F': sq, 'g': lambda a, b: a - b}), ['f(2)', '4', 'g(5,1)']),
+        ('FormulaGrader', dict(answers='sin(2)', user_functions={'sin': sq}, suppress_warnings=True), ['sin(2)', '4']),
+        ('FormulaGrader', dict(answers='sin(1)', whitelist=['sin', 'cos']), ['sin(1)', 'tan(1)', 'cos(1)']),
+        ('FormulaGrader', dict(answers='sin(1)', blacklist=['tan', 'sqrt']), ['sin(1)', 'tan(1)', 'sqrt(1)']),
+        ('FormulaGrader', dict(answers='1', whitelist=[None]), ['1', 'sin(0)+1']),
+        ('FormulaGrader', dict(answers='a_{1}+a_{2}', numbered_vars=['a']), ['a_{1}+a_{2}', 'a_{2}+a_{1}', 'a_{3}']),
+        ('FormulaGrader', dict(answers='x+m', variables=['x', 'm', 'T']), ['x+m', 'm+x', 'x+T']),
+        ('FormulaGrader', dict(answers='infty', allow_inf=True), ['infty', '1']),
+        ('MatrixGrader', dict(answers='A*B', variables=['A', 'B'], identity_dim=2), ['A*B', 'B*A']),
+        ('NumericalGrader', dict(answers='1', user_constants={'x': 1, "x'": 2}), ['x', "x'-1"]),
+        ('SumGrader', dict(answers={'lower': '1', 'upper': '3', 'summand': 'n', 'summation_variable': 'n'},
+                           input_positions={'summand': 1}, metric_suffixes=True), ['n', '1k*n/1k']),
+    ]
+
+
+def run_perturbers():
+    import mitxgraders
+    n = 0
+    for name, cfg, inputs in perturbers():
+        cls = getattr(mitxgraders, name, None)
+        if cls is None:
+            continue
+        st, g = core.guarded(cls, **cfg)
+        if st != 'ret':
+            continue
+        for inp in inputs:
+            core.guarded(g, None, inp)
+            n += 1
+    return n
+
+
+def compare_probes(res, here, fresh):
+    n = 0
+    for key in sorted(set(here) | set(fresh), key=lambda k: (not k.startswith('evaluator'), k)):
+        a, b = here.get(key), fresh.get(key)
+        n += 1
+        same = a == b
+        if not same and a and b and a[0] == b[0] == 'value':
+            try:
+                flat = lambda v: [complex(float(x[0]), float(x[1])) for x in ([v] if isinstance(v[0], str) else v)]     # noqa
+                same = all(abs(p - q) <= 1e-9 * max(abs(p), abs(q)) for p, q in zip(flat(a[1]), flat(b[1])))
+            except Exception:       # noqa
+                same = False
+        if not same:
+            witness(res, 'history', key, 'default', 'default',
+                    'after graders with scope-changing options were configured and called, %s gives %r; in a fresh interpreter '
+                    'it gives %r (the value must depend on the string and the supplied scope only)' % (key, a, b), probe=key)
+    return n
+
+
+def run_history(ctx, res, col):
+    here = probe_outcomes()
+    fresh = fresh_probe_outcomes()
+    n = compare_probes(res, here, fresh)
+    res.oracle_evals += n
+    col.count('history_probes', n)
+    res.nontrivial.add(('history-probes', n))
+
+
 def uses_names(e):
     if e[0] == 'var':
         return True
@@ -1733,13 +1980,17 @@ def run(ctx):
                 'plain operators, a sample (thorough: all) of the 12^4 others, over leaf sets chosen so that groupings differ; '
                 'derivations: random grammar derivations to depth 6 x renderings; invalid strings by construction; non-trivial = '
                 'distinct strings whose documented value the oracle predicts (or which must be rejected)')
+    col.count('perturbing_grader_calls', run_perturbers())
     run_literals(ctx, res, col, rng)
+    run_int_bindings(ctx, res, col, rng, sz)
     run_sequences(ctx, res, col, rng, sz)
     run_derivations(ctx, res, col, rng, sz)
     run_invalid(ctx, res, col, rng, sz)
     run_mutants(ctx, res, col, rng, sz)
     run_front_door(ctx, res, col, rng)
     run_graders(ctx, res, col, rng, sz)
+    run_perturbers()
+    run_history(ctx, res, col)
     shard = max(100, (len(col.terms) + 31) // 32)
     codes, errors = eval_cases('c03', col.terms, shard)
     res.programs = len(col.terms)
@@ -1772,6 +2023,20 @@ def replay(w):
         st, r = core.guarded(cls(answers=w['answer'], tolerance='0.0001%'), None, s)
         bad = not (st == 'ret' and r.get('ok') is w['should'])
         return bad, '%s(answers=%r)(None, %r) -> %r (expected ok=%r)' % (w['grader'], w['answer'], s, r, w['should'])
+    if kind == 'history':
+        run_perturbers()
+        res = core.Result()
+        here, fresh = probe_outcomes(), fresh_probe_outcomes()
+        compare_probes(res, here, fresh)
+        hit = [x for x in res.witnesses if x.get('probe') == w.get('probe')]
+        return bool(hit), (hit[0]['what'] if hit else '%s: same outcome as in a fresh interpreter (%r)' %
+                           (w.get('probe'), here.get(w.get('probe'))))
+    if kind == 'int-grader':
+        from mitxgraders import FormulaGrader
+        consts = dict((n, int(v[0])) for n, v in VAR_TABLES['pyint'].items() if n.isalnum())
+        st, out = core.guarded(FormulaGrader(answers=w['answer'], user_constants=consts, tolerance='0.0001%'), None, s)
+        return not (st == 'ret' and out.get('ok') is True), 'FormulaGrader(answers=%r, user_constants=<ints>)(None, %r) -> %r' % (
+            w['answer'], s, out)
     r = run_impl(s, var_key, suf_key)
     got = '%s %r' % (r['cls'], r.get('value', r.get('exc')))
     if kind == 'invalid':
